@@ -10,8 +10,11 @@
 (*   Store  name, len, kind, ok, names, lens, kinds     (observed holder after the call) *)
 (*   Delete name, ok, names, lens, kinds                (observed holder after the call) *)
 (*   List   ok, list, names, lens, kinds                (holder before the call)         *)
-(*   Solve  h, vs, ok, must, names, lens, kinds         (observed holder after the call; *)
-(*          must: the replayed behaviour has a successful solve here)                     *)
+(*   Horizon place, h                                   (the user states the horizon)   *)
+(*   Solve  used, vs, ok, must, names, lens, kinds      (observed holder after the call; *)
+(*          used: the horizon the solver ended up with - conformance only, the property  *)
+(*          is judged against the STATED horizon; must: the replayed behaviour has a     *)
+(*          successful solve here)                                                        *)
 (*   Render fmt, ok, header, rows, cells, names, lens, kinds  (holder before the call)   *)
 (*   End                                                                                 *)
 (* The events of one trace may come in any order and number: every Render is judged      *)
@@ -83,7 +86,9 @@ JudgeList(e) ==
     ELSE Ok
 
 JudgeSolve(e) ==
-    IF LensOf(Obs(e)) # LensOf(holder') THEN Drift("solve_state") ELSE Ok
+    IF LensOf(Obs(e)) # LensOf(holder') THEN Drift("solve_state")
+    ELSE IF e.used # Effective(stated) THEN Drift("solve_horizon")
+    ELSE Ok
 
 TraceInit == Init /\ l = 1 /\ verdict = Ok
 
@@ -103,9 +108,12 @@ TraceNext ==
        \/ /\ e.ev = "List"
           /\ List
           /\ verdict' = Worse(verdict, JudgeList(e))
+       \/ /\ e.ev = "Horizon"
+          /\ StateHorizon(e.place, e.h)
+          /\ UNCHANGED verdict
        \/ /\ e.ev = "Solve"
           /\ e.ok
-          /\ Solve(Range(e.vs), e.h)
+          /\ Solve(Range(e.vs))
           /\ verdict' = Worse(verdict, JudgeSolve(e))
        \/ /\ e.ev = "Solve"
           /\ ~e.ok
@@ -117,7 +125,7 @@ TraceNext ==
        \/ /\ e.ev = "End"
           /\ PrintT(<< "VERDICT", e.tid, verdict.kind \o ":" \o verdict.clause >>)
           /\ phase' = "build" /\ holder' = EmptyHolder /\ solved' = NotSolved
-          /\ table' = NoTable /\ hist' = << >>
+          /\ table' = NoTable /\ stated' = Unstated /\ hist' = << >>
           /\ verdict' = Ok
 
 TraceSpec == TraceInit /\ [][TraceNext]_tvars
